@@ -77,6 +77,10 @@ pub open spec fn unlinks_sound(fx: Seq<Fx>) -> bool {
 pub open spec fn evictable_sound(fx: Seq<Fx>) -> bool {
     forall|p: int| 0 <= p < fx.len() && (#[trigger] fx[p] is SetEvictable) ==> unsynced(fx.take(p)).subset_of(set![fx[p]->newest])
 }
+/// every Write event since position n succeeded (a failed write ends the worker: it must not be skipped over)
+pub open spec fn writes_ok_since(fx: Seq<Fx>, n: int) -> bool {
+    forall|p: int| n <= p < fx.len() ==> (#[trigger] fx[p] matches Fx::Write { ok, .. } ==> ok)
+}
 pub open spec fn covered<T: Types>(fx: Seq<Fx>, files: Seq<FileEntry<T>>) -> bool {
     forall|x: int| unsynced(fx).contains(x) ==> exists|j: int| 0 <= j < files.len() && #[trigger] files[j].f.fid() == x
 }
